@@ -2,6 +2,7 @@ import Mathlib.Tactic.Ring
 import Mathlib.Tactic.Linarith
 import PyPhysim.Proofs.GrayGenerated
 import PyPhysim.Proofs.C15Geom
+import PyPhysim.Proofs.C15QamRepaired
 
 /-!
 # C15 — Gray conversion is a bijection; constellations are Gray labelled
@@ -174,6 +175,17 @@ theorem qam_gray_small :
     (∀ l₁ < 16, ∀ l₂ < 16, gridAdjacent 4 (qamPos binary2gray 2 4 l₁) (qamPos binary2gray 2 4 l₂) = true →
         hamming l₁ l₂ = 1) := by
   constructor <;> decide +kernel
+
+/-- What is missing for QAM of every order: had `_calculateGrayMappingIndexQAM` used
+    `gray2binary` (the inverse map) instead of `binary2gray`, grid neighbours would differ in
+    exactly one bit for EVERY `L = 2^k` (`k ≤ 64`).  The code uses `binary2gray`, which agrees
+    with this only for `L ≤ 4` (`qam_gray_small`); see `qam64_not_gray`. -/
+theorem qam_gray_if_inverse_map (k : Nat) (hk : k ≤ 64) (l₁ l₂ : Nat)
+    (h₁ : l₁ < 2^k * 2^k) (h₂ : l₂ < 2^k * 2^k)
+    (hadj : gridAdjacent (2^k) (qamPos gray2binary k (2^k) l₁) (qamPos gray2binary k (2^k) l₂) = true) :
+    hamming l₁ l₂ = 1 := by
+  rw [gen_g2b] at hadj
+  exact qam_gray_inverse_map k hk l₁ l₂ h₁ h₂ hadj
 
 /-- NEGATIVE WITNESS (known finding `C15:QAM:labels-not-gray`): for 64-QAM the
     code's map (binary→Gray applied to the *index*, so grid cell `c` carries
